@@ -294,7 +294,7 @@ def optimum_cached(pairs):
 def judge_c02(run, observations):
     out = []
     for k, (step, obs) in enumerate(zip(run["steps"], observations)):
-        if obs.get("discard"):
+        if obs.get("discard") or step.get("unjudged"):
             continue
         n, pairs, seq, ok = judge_common(k, step, obs, out)
         if not ok:
